@@ -16,6 +16,11 @@ Ok(e) ==
                          ELSE ~e.panic /\ e.seen = << <<Route(e.a), e.a>> >> /\ e.v = MemVal(mv, Route(e.a), e.a)
     [] e.k = "write"  -> IF Route(e.a) = Nil THEN e.panic
                          ELSE ~e.panic /\ e.seen = << <<Route(e.a), e.a, e.v>> >>
+    [] e.k = "read24" -> LET a(i) == e.bank * 65536 + ((e.addr + i) % 65536) IN      \* three bytes, wrapping inside the bank
+                         IF \E i \in 0..2 : Route(a(i)) = Nil THEN e.panic
+                         ELSE /\ ~e.panic
+                              /\ e.seen = [i \in 1..3 |-> <<Route(a(i - 1)), a(i - 1)>>]
+                              /\ e.v = << MemVal(mv, Route(a(0)), a(0)) + 256 * MemVal(mv, Route(a(1)), a(1)), MemVal(mv, Route(a(2)), a(2)) >>
     [] e.k = "dump"   -> ~e.panic /\ e.n = DumpCount(e.s, e.e) /\ e.data = DumpPointwise(Route, mv, e.s, e.e)
     [] OTHER -> TRUE
 
